@@ -132,10 +132,13 @@ def apply_diff(src_root: str, diff_text: str) -> Dict[str, str]:
     return overlay
 
 
-def apply_edit(src_root: str, rel: str, old: str, new: str, count: int = 1) -> Dict[str, str]:
+def apply_edit(src_root: str, rel: str, old: str, new: str, count: int = 1, base: Optional[Dict[str, str]] = None) -> Dict[str, str]:
     full = os.path.join(src_root, rel)
-    with open(full, encoding="utf-8") as fh:
-        text = fh.read()
+    if base and rel in base:
+        text = base[rel]
+    else:
+        with open(full, encoding="utf-8") as fh:
+            text = fh.read()
     if text.count(old) != count:
         raise PatchError(f"{rel}: anchor occurs {text.count(old)} time(s), expected {count}")
     return {rel: text.replace(old, new)}
@@ -164,7 +167,7 @@ def _job(args):
         else:
             overlay = {}
             for ed in payload:
-                part = apply_edit(src, ed["file"], ed["old"], ed["new"], ed.get("count", 1))
+                part = apply_edit(src, ed["file"], ed["old"], ed["new"], ed.get("count", 1), base=overlay)
                 overlay.update(part)
     except PatchError as exc:
         return name, "skipped", str(exc), []
